@@ -234,6 +234,50 @@ def stream_and_regular_case(args):
         sc.close()
 
 
+def chatty_case(args):
+    """commands that print a lot -- more than a pipe buffer -- on standard error, on standard output, or on both in turns,
+    before and after writing their outputs: Run returns, nothing is left behind, the outputs are there"""
+    seed, i = args
+    rng = random.Random(seed * 7349 + i)
+    sp = t3.Spec(maxtasks=rng.randint(1, 3), bufsize=rng.choice([1, 128]))
+    L = rng.randint(1, 3)
+    paths = ["ch%d.txt" % j for j in range(L)]
+    for p in paths:
+        sp.files[p] = p + "\n"
+    s = sp.src("src", paths)
+    kb = rng.choice([70, 200, 1100])
+    noise = {0: "head -c %d000 /dev/zero | tr '\\0' 'e' 1>&2" % kb,
+             1: "head -c %d000 /dev/zero | tr '\\0' 'o'" % kb,
+             2: "for k in 1 2 3 4; do head -c %d000 /dev/zero | tr '\\0' 'e' 1>&2; head -c %d000 /dev/zero | tr '\\0' 'o'; done" % (kb // 4 + 17, kb // 4 + 17)}[i % 3]
+    where = rng.choice(["before", "after", "both"])
+    body = "cat {i:a} > {o:o}"
+    pat = " ; ".join(([noise] if where in ("before", "both") else []) + [body] + ([noise] if where in ("after", "both") else []))
+    loud = sp.proc(t3.RawProc("loud", pat, ins=[("a", [(s, "out")])], outs=[("o", "{i:a}.loud")]))
+    sp.proc(t3.RawProc("quiet", "cat {i:a} > {o:o}", ins=[("a", [(loud, "o")])], outs=[("o", "{i:a}.quiet")]))
+    sc = t3.Scratch()
+    try:
+        sc.plant(sp.files)
+        impl = t3.run_impl(sc, sp, timeout=25)
+        problems = []
+        if impl["timed_out"] or "all goroutines are asleep" in impl["stderr"]:
+            problems.append(("deadlock-or-hang", "a command that prints %d kB on %s (%s writing its output) never finishes: Run does not return" % (
+                kb, ["standard error", "standard output", "standard error and standard output in turns"][i % 3], where)))
+        elif impl["rc"] != 0 or not impl["returned"]:
+            problems.append(("unexpected-failure", "exit %s: %s" % (impl["rc"], impl["stderr"][-200:])))
+        else:
+            for p in paths:
+                v = impl["fs"].get(p + ".loud.quiet")
+                if v is None or v[1] != p + "\n":
+                    problems.append(("wrong-result", "%s.loud.quiet is %r" % (p, v and v[1])))
+            left = [q for q, k in impl["snap_at_return"].items() if q.split("/")[-1].startswith("_scipipe_tmp") or k == "p"]
+            if left:
+                problems.append(("leftover-at-return", "temp dir or FIFO present when Run returns: %s" % left[:3]))
+        return {"spec": sp.text(), "bufsize": sp.bufsize, "problems": problems[:3], "ntasks": 2 * L, "nskip": 0, "rc": impl["rc"], "stderr": impl["stderr"][-300:],
+                "yield": None, "wall": impl["wall"]}
+    finally:
+        sc.close()
+
+
 def run(rep, tier, seed):
     proved = vlib.prove(rep, MODULE, THEOREMS)
     ok, msg = vlib.build_ocaml()
@@ -244,6 +288,7 @@ def run(rep, tier, seed):
     results += t3.run_many(streaming_rerun_case, [(seed, i) for i in range(n // 8)])
     results += t3.run_many(component_case, [(seed, i) for i in range(n // 4)])
     results += t3.run_many(dangling_stream, [(seed, i) for i in range(n // 8)])
+    results += t3.run_many(chatty_case, [(seed, i) for i in range(6 if tier == "quick" else 60)])
     results += t3.run_many(ks.ks_case, [(seed, i, ("basic",)) for i in range(n // 6)])
     fan = t3.run_many(fanin_ports_case, [(seed, i, 128) for i in range(6 if tier == "quick" else 60)])
     small = t3.run_many(fanin_ports_case, [(seed, i, 1) for i in range(16 if tier == "quick" else 120)])
